@@ -276,7 +276,27 @@ def make_reader(objs, terms):
     for obj in objs:
         obj.accept(Collect())
     sources = {t: sql.table(name.lower(), *(sql.column(c.name) for c in t.features)) for name, t in found.items()}
-    return alchemy.Reader(sources, {}, 'sqlite://'), sources
+    return counting_reader()(sources, {}, 'sqlite://'), sources
+
+
+PARSES = [0]
+_COUNTING = []
+
+
+def counting_reader():
+    """The alchemy reader with its (public, to be implemented by every reader) `parser` factory counted: a statement is
+    parsed iff a parser is created - however the reader memoises."""
+    if not _COUNTING:
+        from forml.provider.feed.reader import alchemy
+
+        class Counting(alchemy.Reader):
+            @classmethod
+            def parser(cls, sources, features):
+                PARSES[0] += 1
+                return super().parser(sources, features)
+
+        _COUNTING.append(Counting)
+    return _COUNTING[0]
 
 
 def measure_pair(p):
@@ -327,11 +347,10 @@ def measure_pair(p):
     if sort == 'source' and p['a']['t'] in ('query', 'set') and p['b']['t'] in ('query', 'set'):
         try:
             reader, sources = make_reader([a, b], [p['a'], p['b']])
-            cache = _producer.Reader._parse_statement  # pylint: disable=protected-access
             reader._parse_statement(a)  # pylint: disable=protected-access
-            before = cache.cache_info().hits
+            before = PARSES[0]
             got = sql_text(reader._parse_statement(b))  # pylint: disable=protected-access
-            o['c_hit'] = cache.cache_info().hits > before
+            o['c_hit'] = PARSES[0] == before
             fresh = sql_text(type(reader)(sources, {}, 'sqlite://')._parse_statement(b))  # pylint: disable=protected-access
             o['c_ret_ok'] = got == fresh
             o['c_na'] = False
@@ -607,8 +626,7 @@ def replay_histories(chk):
                         workers=1, require=['Next']).json_prints()
     if not dict_hist or not call_hist:
         raise tlc.MachineryError('Identity.tla exported no history')
-    cache = _producer.Reader._parse_statement  # pylint: disable=protected-access
-    replayed = 0
+    replayed = reparsed = 0
     for name, s1, s2 in key_families():
         terms = {'s1': s1, 's2': s2}
         objs = {(s, c): g.build(terms[s], fresh=True) for s in terms for c in (1, 2)}
@@ -638,15 +656,14 @@ def replay_histories(chk):
         for hist in call_hist:
             reader = type(reader)(sources, {}, 'sqlite://')  # empty cache for this history (entries are per reader)
             for step, ev in enumerate(hist):
-                misses = cache.cache_info().misses
+                before = PARSES[0]
                 got = sql_text(reader._parse_statement(objs[tuple(ev['k'])]))  # pylint: disable=protected-access
-                computed = cache.cache_info().misses > misses
-                if got != denote[ev['ret']] or computed != ev['computed']:
+                computed = PARSES[0] > before
+                reparsed += computed and not ev['computed']    # speed only (a reader may memoise or not): never judged
+                if got != denote[ev['ret']]:
                     bad += 1
                     if bad <= 6:
-                        what = (f'returned the statement parsed for the other structure ({got!r})' if got != denote[ev['ret']]
-                                else 're-parsed a statement whose identical copy was cached' if computed else
-                                'answered from the cache although no identical statement was parsed before')
+                        what = f'returned the statement parsed for the other structure ({got!r})'
                         chk.fail(f'parser cache [{name}]: parsing {ev["k"]} {what} after {[e["k"] for e in hist[:step]]}',
                                  {'kind': 'cache', 'family': name, 's1': s1, 's2': s2, 'hist': hist, 'step': step}, finding)
                     break
@@ -656,7 +673,8 @@ def replay_histories(chk):
             chk.fail(f'[{name}]: {bad - 6} more histories diverge', None, finding)
     chk.validated(replayed)
     chk.extra['histories'] = {'dict_histories': len(dict_hist), 'cache_histories': len(call_hist),
-                              'key_families': len(key_families()), 'replayed_conforming': replayed}
+                              'key_families': len(key_families()), 'replayed_conforming': replayed,
+                              're_parsed_although_an_identical_statement_was_parsed_before': reparsed}
     # binding self-test: a dict with a wrong key relation (keys compared by their table only) is noticed by the replay
     chk.selftest('replay_notices_merged_keys', _merged_dict_diverges(dict_hist))
 
